@@ -677,6 +677,8 @@ pub struct RunLog {
   pub sub_counts: Vec<(usize, usize)>,
   pub factory_calls: Vec<(usize, usize)>,
   pub tap_log: Vec<Rk>,
+  /// after every action: observer counts of crate subjects used as hot sources
+  pub subj_timeline: Vec<Vec<Option<usize>>>,
   /// observer counts of crate subjects used as hot sources after actions + sentinel
   pub subj_counts: Vec<Option<usize>>,
   /// ... and after the forced final unsubscribe of everything
@@ -862,7 +864,9 @@ pub fn drive(case: &Case, opts: &RunOpts, log: Arc<Mutex<RunLog>>) {
       arx_rt::settle();
     }
     snapshot_timeline(&sh);
+    let counts: Vec<Option<usize>> = env.hots.iter().map(|h| h.observer_count()).collect();
     let mut l = lk(&log);
+    l.subj_timeline.push(counts);
     l.in_call = None;
     l.actions_done = ai + 1;
   }
